@@ -208,11 +208,12 @@ Definition check_remote (impl : fixes) (c : rmcase) : verdict :=
      v_guards := [] |}.
 
 (** ** the streams without in-package access share one driver binary *)
-Inductive mcase := MK (c : kcase) | MT (c : tcase) | MQ (c : qcase) | MR (c : rmcase).
+Inductive mcase := MK (c : kcase) | MT (c : tcase) | MQ (c : qcase) | MR (c : rmcase) | ME (c : rcase).
 Definition check_misc (impl : fixes) (c : mcase) : verdict :=
   match c with
   | MK c => check_ks impl c
   | MT c => check_ts impl c
   | MQ c => check_req impl c
   | MR c => check_remote impl c
+  | ME c => check_reload impl c     (* end-to-end through the real watcher, in a child process *)
   end.
